@@ -53,6 +53,15 @@ def bernoulli_events(par, ids, seed):
                     e["len"] = int(d.shape[0]) if d.ndim == 1 else -1
                     e["ones"] = int((d == 1).sum())
                     e["binary"] = bool(np.isin(d, [0, 1]).all())
+                    if (a + n) % 3 == 0 and d.flags.writeable:
+                        # history: the caller recodes the sample it was given in place, then draws again
+                        d[...] = -7
+                        d2 = np.asarray(ds.sample(n=None if (a + n) % 2 else n, random=random,
+                                                  rng=np.random.default_rng(seed + a + n + 1)))
+                        e["len"] = int(d2.shape[0]) if d2.ndim == 1 else -1
+                        e["ones"] = int((d2 == 1).sum())
+                        e["binary"] = bool(np.isin(d2, [0, 1]).all())
+                        e["after_caller_write"] = True
                 except Exception as ex:  # noqa
                     e["exc"] = type(ex).__name__
                 evs.append(e)
@@ -92,6 +101,9 @@ def correlated_events(par, ids, seed):
                     try:
                         ds = CorrelatedBernoullilDataset(p1=a1 / PD, p2=a2 / PD, rho=r / PD, n=n)
                         d = np.asarray(ds.sample(random=random, rng=np.random.default_rng(seed + k)))
+                        if k % 3 == 0 and d.flags.writeable:
+                            d[...] = -7                          # the caller recodes its sample in place ...
+                            d = np.asarray(ds.sample(random=random, rng=np.random.default_rng(seed + k + 1)))
                         e["shape_ok"] = bool(d.shape == (2, n))
                         e["binary"] = bool(np.isin(d, [0, 1]).all())
                         if d.shape == (2, n):
@@ -188,6 +200,12 @@ def from_metrics_events(ids, seed):
                  "sample_total": 0, "sample_n": 0, "sample_sc": "", "sc": ""}
             try:
                 fnr, fpr = fq[0] / fq[1], pq[0] / pq[1]
+                if (fs + ps) % 2:
+                    # history: an earlier model from the same arguments had its public fields re-assigned
+                    old = NormalDataset.from_metrics(fnr=fnr, fpr=fpr, fnr_support=fs, fpr_support=ps,
+                                                     sigma_pos=sp, sigma_neg=sn)
+                    old.mu_pos, old.mu_neg, old.n, old.p_pos = old.mu_pos + 1.0, old.mu_neg - 2.0, 50, 0.5
+                    e["history"] = "earlier_model_modified"
                 ds = NormalDataset.from_metrics(fnr=fnr, fpr=fpr, fnr_support=fs, fpr_support=ps,
                                                 sigma_pos=sp, sigma_neg=sn)
                 e["fnr_req"], e["fpr_req"] = fx6(fnr), fx6(fpr)
